@@ -921,6 +921,16 @@ def int_default(ex, args): return 0
 def range_default(ex, args): return Struct('ops::Range', [0, 0])
 
 
+# ---- codespan_reporting::diagnostic::Label { style, file_id, range, message }
+@model(r'(?:codespan_reporting::diagnostic::)?Label::<.*>::(primary|secondary)(?:::<.*>)?')
+def label_new(ex, args, m): return Struct('Label', [Opaque('style', m.group(1)), args[0], args[1], StrV([])])
+
+
+@model(r'(?:codespan_reporting::diagnostic::)?Label::<.*>::with_message(?:::<.*>)?')
+def label_with_message(ex, args):
+    l = deref(args[0]); l.f[3] = args[1]; return l
+
+
 # ---- RefCell: single-threaded interior mutability; the borrow flag is not modelled (a double borrow would panic natively)
 @model(r'(?:std::cell::|core::cell::|cell::)?RefCell::<.*>::new')
 def refcell_new(ex, args): return Struct('RefCell', [args[0]])
@@ -1440,6 +1450,18 @@ def opt_ok_or_else(ex, args):
 def array_into_iter(ex, args):
     v = args[0]
     return SeqIter(list(v.items)) if isinstance(v, VecV) else SeqIter(seq_of(ex, v))
+
+
+@model(r'(?:core::str::|std::str::|alloc::str::)?<impl str>::replace::<char>')
+def str_replace_char(ex, args):
+    """s.replace(c, t) for a char pattern: every occurrence of c is replaced by the string t (forks on symbolic chars)"""
+    src = as_str(args[0]).chars; pat = args[1]; to = as_str(args[2]).chars
+    out = []
+    for ch in src:
+        c = simp(eq(ch, pat))
+        if ex.decide(c) if is_sym(c) else c: out.extend(to)
+        else: out.append(ch)
+    return StrV(out)
 
 
 @model(r'(?:core::str::|std::str::)?<impl str>::split::<char>')
